@@ -94,7 +94,7 @@ def run(R, tier):
             nulls = [1 << i for i, s_ in enumerate(alg.signature) if s_ == 0]
             order = order[:cut] + [('@linecache', [], 'int', False), ('@simp_func', [], 'int', False),
                                    ('div', [(canon[-1],), (nulls[0] if nulls else canon[1],)], 'int', False),   # fails during generation when the divisor is null
-                                   ('@read-tables', [], 'int', False)] + order[cut:]
+                                   ('@read-tables', [], 'int', False), ('@register-namesakes', [], 'int', False)] + order[cut:]
             seen = set()
             for op, pats, kind, first in order:
                 if op.startswith('@'):
@@ -106,6 +106,14 @@ def run(R, tier):
                         elif op == '@simp_func':
                             old_simp = alg.simp_func
                             alg.simp_func = (lambda v, _f=old_simp: _f(v))
+                        elif op == '@register-namesakes':
+                            # user functions that happen to be called like built-in operators (registered, not called)
+                            for nm_, f_ in (('add', lambda a, b: a + b), ('sub', lambda a, b: a - b), ('gp', lambda a, b: a * b),
+                                            ('inv', lambda a: a.inv()), ('reverse', lambda a: ~a), ('div', lambda a, b: a / b),
+                                            ('normsq', lambda a: a.normsq()), ('sw', lambda a, b: a >> b)):
+                                f_.__name__ = nm_
+                                alg.register(f_)
+                                alg.register(symbolic=True)(f_) if nm_ in ('add', 'gp') else None
                         else:
                             alg.cayley if alg.d <= 4 else None
                             alg.matrix_basis if 1 <= alg.d <= 3 else None
